@@ -79,7 +79,8 @@ PatternCases == {[ids |-> ids, re |-> Zs(PatternWidth - PLen(ids)) \o PCat(ids)]
                \cup {[ids |-> ids, re |-> PCat(ids) \o Zs(PatternWidth - PLen(ids))] : ids \in {x \in PIdSeqs : PLen(x) < PatternWidth}}
 TwinPattern == Zs(PatternWidth)
 
-ASSUME JsonSerialize(IOEnv.VERIF_OUT, [payloads |-> SetToSeq(Cases), patterns |-> SetToSeq(PatternCases), twin_pattern |-> TwinPattern])
+ASSUME JsonSerialize(IOEnv.VERIF_OUT, [payloads |-> SetToSeq(Cases), patterns |-> SetToSeq(PatternCases), twin_pattern |-> TwinPattern,
+                                        fragments |-> Fragments, pattern_fragments |-> PatternFragments])
 ASSUME PrintT(<<"@@PRINT@@ cases", Cardinality(Cases), Cardinality(PatternCases)>>)
 VARIABLE dummy
 Init == dummy = 0
